@@ -507,6 +507,20 @@ class R:
         if len(rects) > k:
             rects = self.rnd.sample(rects, k)
         located = [f for f in walked if f.loc is not None]
+        # rectangles that share the start and the END COLUMN of a multi-line node but end on an earlier line, and
+        # rectangles one column / one line off a node's own extent
+        extra = []
+        for f in located:
+            l = tuple(f.loc)[:4]
+            if l[2] > l[0]:
+                for el in range(l[0], l[2]):
+                    if l[3] <= len(lines[el]) and (el, l[3]) > (l[0], l[1]):
+                        extra.append(((l[0], l[1]), (el, l[3])))
+            if l[3] > 0 and (l[2], l[3] - 1) > (l[0], l[1]):
+                extra.append(((l[0], l[1]), (l[2], l[3] - 1)))
+        if len(extra) > k // 2:
+            extra = self.rnd.sample(extra, k // 2)
+        rects += extra
         order = {id(f): i for i, f in enumerate(walked)}
         def ctxtag(f):
             t = ''
@@ -550,6 +564,21 @@ class R:
                     self.fail('C06', f'find_contains_loc{ctxtag((smallest or contains)[0])}:{self.name}:{(ln, col, eln, ecol)}',
                               f'find_contains_loc returns {got!r}; the innermost containing node by brute force is '
                               f'{smallest[:1]!r}')
+            # find_loc is the documented composition: an exact match, else what lies inside, else what contains
+            try:
+                c = root.find_contains_loc(ln, col, eln, ecol, True)
+                if c is not None and tuple(c.loc)[:4] == (ln, col, eln, ecol):
+                    want = c
+                else:
+                    want = root.find_in_loc(ln, col, eln, ecol) or c
+                got = root.find_loc(ln, col, eln, ecol)
+            except Exception as e:
+                self.fail('C06', f'find_loc:{self.name}:{(ln, col, eln, ecol)}', f'find_loc raised {e!r}')
+                continue
+            if (got is None) != (want is None) or (got is not None and got is not want and tuple(got.loc) != tuple(want.loc)):
+                self.fail('C06', f'find_loc{ctxtag(want or got)}:{self.name}:{(ln, col, eln, ecol)}',
+                          f'find_loc returns {got!r}; exact match / find_in_loc / find_contains_loc (its documented '
+                          f'composition) give {want!r}')
             self.distinct.add(('find', self.name, ln, col, eln, ecol))
 
     # ---------------------------------------------------------------------------------------------------------------
